@@ -204,7 +204,9 @@ pub fn inputs(tier: &str, seed: u64) -> Vec<(String, String)> {
     // the defect classes of record, and every White_Space character in every tag position
     for s in ["<v\u{3000}a=\"1\"/>", "<!meta\u{3000}a>", "{{ 0xg }}", "{{ 99999999999999999999 }}", "{{ 0x8000000000000000 }}", "<v a=\"{{", "<!--", "<v a='",
               "{{ [.5] }}", "<wxs module=\"m\">", "</wxs", "<wxs module='m'></wxsx</wxs>", "<v wx:for>", "&#xffffffffff;&#99999999999;&bogus;&;&#;&#x;",
-              "{{ '\\u{41}\\x4\\u12' }}", "{{ a ? b }}", "{{ a[ }}", "{{ f( }}", "{{ {a:} }}", "{{ ...a }}", "<template is data=\"{{ }}\"/>", "<a:b:c d:e:f=g/>"] {
+              "{{ '\\u{41}\\x4\\u12' }}", "{{ a ? b }}", "{{ a[ }}", "{{ f( }}", "{{ {a:} }}", "{{ ...a }}", "<template is data=\"{{ }}\"/>", "<a:b:c d:e:f=g/>",
+              "<!-- \n\u{1f600} --><v a=\"{{ a b }}\"/>", "<wxs module=\"m\" src=\"a.wxs\">\n// \u{1f600}</wxs>", "{{ a /* \n\u{1f600}\u{1f600} */ b c }}",
+              "<v \u{1f600}\n\u{1f600} a=1 a=2>", "<!-- x\n汉\u{1f600} --></v>", "<wxs module=\"m\">\n\u{1f600}</wxs><include/>"] {
         v.push(("tmpl".into(), s.to_string()));
     }
     let ws = ['\u{9}', '\u{a}', '\u{b}', '\u{c}', '\u{d}', ' ', '\u{85}', '\u{a0}', '\u{1680}', '\u{2000}', '\u{2001}', '\u{2002}', '\u{2003}', '\u{2004}', '\u{2005}',
@@ -214,6 +216,17 @@ pub fn inputs(tier: &str, seed: u64) -> Vec<(String, String)> {
                     "{{{{ a{}+b }}}}", "{{{{ {}typeof a }}}}", "<v a=\"{{{{a}}}}{}\" />", "<wxs{}module=\"m\"/>", "<slot{}name=x />"] {
             v.push(("tmpl".into(), pat.replace("{}", &w.to_string())));
         }
+    }
+    // regions the parser skips in one step, spanning lines, ending right after k astral characters, followed on the
+    // same line by something that is diagnosed (column bookkeeping in UTF-16 units)
+    for k in 1..=9usize {
+        let a = "\u{1f600}".repeat(k);
+        v.push(("tmpl".into(), format!("<!--\n{}--><v a=1 a=2/>", a)));
+        v.push(("tmpl".into(), format!("<!-- x\ny{}--></v><v wx:foo/>", a)));
+        v.push(("tmpl".into(), format!("<wxs module=\"m\" src=\"x\">\n{}</wxs><include/>", a)));
+        v.push(("tmpl".into(), format!("<wxs module=\"m\">\n//{}</wxs><v a=1 a=2/>", a)));
+        v.push(("tmpl".into(), format!("{{{{ a /*\n{}*/ b }}}}", a)));
+        v.push(("tmpl".into(), format!("<v a=\"{{{{ a /*\n{}*/ # }}}}\" b b/>", a)));
     }
     // deep nesting (up to 64) of elements, brackets and operator chains
     for d in [8usize, 32, 64] {
